@@ -3,7 +3,7 @@ from __future__ import annotations
 
 import inspect
 
-from .rules import buffer, connect, data, grid, integ, life, link, misc, sched, spill, spill2, valid
+from .rules import buffer, connect, data, grid, integ, life, link, misc, regrid2, sched, spill, spill2, valid
 
 COMMON_ASSUMPTIONS = [
     "Python grammar and the stdlib `ast` module; finam is never imported or run: verdicts are about the source text on disk",
@@ -54,7 +54,7 @@ GRID = [("R31", grid.r31_memo), ("R32", grid.r32_gridsib), ("R32b", grid.r32b_in
         ("R33", grid.r33_mirror), ("R34", grid.r34_transdir), ("R19", grid.r19_taxis), ("R15g", data.r15g_gridcompat)]
 META = [("R15", data.r15_fields), ("R15c", data.r15c_copy_with), ("R16", data.r16_getinfo), ("R16u", data.r16u_delivered_units), ("R37", data.r37_masktable),
         ("R37e", data.r37e_masks_equal_layout), ("R37p", data.r37p_prepare_mask), ("R41", misc.r41_masktruth)]
-REGRID = [("R35", data.r35_regrid), ("R35t", data.r35t_crs_direction), ("R35b", misc.r35b_specside), ("R33c", data.r33c_compress)]
+REGRID = [("R35", regrid2.r35x), ("R35m", regrid2.r35x_linear_mask), ("R33c", data.r33c_compress)]
 UNITS = [("R36", data.r36_units)]
 VALID = [("R38", valid.r38_valid)]
 STATIC = [("R39", buffer.r39_static), ("R40", link.r40_cbtime), ("R40c", link.r40c_shared_conduit), ("R14f", misc.r14_fresh)]
@@ -71,22 +71,24 @@ def _u(*groups):
 
 
 RULES = {
-    "C01": _u(SCHED, LINKDATA, TIMEAD, ("R40c", link.r40c_shared_conduit), ("R06s", life.r06s_start_time), ("R14", connect.r14_doublepush)),
-    "C02": _u(SCHED, ("R30", link.r30_delay)),
-    "C03": _u(LIFE, SCHED, CONNECT),
-    "C04": _u(SCHED, CONNECT, ("R30", link.r30_delay)),
+    "C01": _u(SCHED, LINKDATA, TIMEAD, ("R40c", link.r40c_shared_conduit), ("R06s", life.r06s_start_time), ("R14", connect.r14_doublepush), ("R16", data.r16_getinfo), ("R42", misc.r42_forwarders)),
+    "C02": _u(SCHED, ("R30", link.r30_delay), ("R16", data.r16_getinfo)),
+    "C03": _u(LIFE, SCHED, CONNECT, ("R42", misc.r42_forwarders)),
+    "C04": _u(SCHED, CONNECT, ("R30", link.r30_delay), ("R16", data.r16_getinfo)),
     "C06": _u(CONNECT, LIFE, ("R17p", link.r17_pushpath), ("R15", data.r15_fields), ("R16", data.r16_getinfo)),
     "C07": _u(META, ("R11", connect.r11_r12_connect), ("R11r", connect.r11r_rules), ("R13", connect.r13_nodata),
-              ("R34", grid.r34_transdir), ("R15g", data.r15g_gridcompat), ("R36", data.r36_units), ("R35b", misc.r35b_specside)),
+              ("R34", grid.r34_transdir), ("R15g", data.r15g_gridcompat), ("R36", data.r36_units), ("R35", regrid2.r35x)),
     "C08": _u(LINKDATA, ("R19", grid.r19_taxis), ("R33", grid.r33_mirror), ("R34", grid.r34_transdir), ("R15g", data.r15g_gridcompat),
               UNITS, ("R16u", data.r16u_delivered_units), ("R37", data.r37_masktable), ("R37p", data.r37p_prepare_mask), ("R37e", data.r37e_masks_equal_layout), ("R22", spill.r22_pack), ("R25", spill2.r25s_pack),
-              ("R24", spill2.r24s_format)),
+              ("R24", spill2.r24s_format), ("R42", misc.r42_forwarders)),
     "C09": _u(("R20", link.r20_target), ("R21", buffer.r21_evict), ("R17", buffer.r17_nearest), ("R17p", link.r17_pushpath), SPILL,
               VALID, TIMEAD, INTEG),
-    "C10": _u(SPILL, ("R20", link.r20_target), ("R21", buffer.r21_evict), ("R26", buffer.r26_buffer), ("R27", buffer.r27_interp), ("R29", integ.r29_integ)),
-    "C11": _u(TIMEAD, ("R20", link.r20_target), ("R21", buffer.r21_evict), ("R04", buffer.r04_cmp), ("R22", spill.r22_pack), ("R24", spill2.r24s_format)),
+    "C10": _u(SPILL, ("R20", link.r20_target), ("R21", buffer.r21_evict), ("R26", buffer.r26_buffer), ("R27", buffer.r27_interp), ("R29", integ.r29_integ),
+              ("R17p", link.r17_pushpath)),
+    "C11": _u(TIMEAD, ("R20", link.r20_target), ("R21", buffer.r21_evict), ("R04", buffer.r04_cmp), ("R22", spill.r22_pack), ("R24", spill2.r24s_format),
+              ("R25", spill2.r25s_pack)),
     "C12": _u(INTEG, ("R20", link.r20_target), ("R26", buffer.r26_buffer), ("R22", spill.r22_pack), ("R21", buffer.r21_evict), ("R04", buffer.r04_cmp),
-              ("R24", spill2.r24s_format)),
+              ("R24", spill2.r24s_format), ("R25", spill2.r25s_pack)),
     "C13": _u(("R30", link.r30_delay), ("R27c", buffer.r27c_constructors), ("R02", sched.r02_sched_agree), ("R03", sched.r03_r09_step), ("R20", link.r20_target), ("R16", data.r16_getinfo)),
     "C14": _u(("R31", grid.r31_memo), ("R32", grid.r32_gridsib), ("R32b", grid.r32b_indexspace), ("R32c", grid.r32c_cellcenters),
               ("R32d", grid.r32d_cellcorners),
@@ -97,11 +99,11 @@ RULES = {
     "C16": _u(REGRID, ("R32c", grid.r32c_cellcenters), ("R32", grid.r32_gridsib), ("R32b", grid.r32b_indexspace), ("R32d", grid.r32d_cellcorners),
               ("R41", misc.r41_masktruth), ("R37", data.r37_masktable), ("R16", data.r16_getinfo)),
     "C17": _u(UNITS, ("R18", link.r18_pullpath), ("R15", data.r15_fields), ("R16u", data.r16u_delivered_units), ("R24", spill2.r24s_format),
-              ("R40", link.r40_cbtime), ("R39", buffer.r39_static), ("R17p", link.r17_pushpath)),
+              ("R40", link.r40_cbtime), ("R39", buffer.r39_static), ("R17p", link.r17_pushpath), ("R28", integ.r28_dim), ("R42", misc.r42_forwarders)),
     "C18": _u(("R37", data.r37_masktable), ("R37e", data.r37e_masks_equal_layout), ("R37p", data.r37p_prepare_mask), ("R33c", data.r33c_compress), UNITS,
               ("R15", data.r15_fields), ("R41", misc.r41_masktruth), ("R33", grid.r33_mirror), ("R34", grid.r34_transdir)),
     "C19": _u(VALID, ("R06", life.r06_life), ("R20", link.r20_target)),
-    "C20": _u(STATIC, ("R14", connect.r14_doublepush), ("R03", sched.r03_r09_step), ("R09", sched.r09_structure), ("R02", sched.r02_sched_agree), ("R17p", link.r17_pushpath),
+    "C20": _u(STATIC, ("R38s", valid._slot_constructors), ("R14", connect.r14_doublepush), ("R03", sched.r03_r09_step), ("R09", sched.r09_structure), ("R02", sched.r02_sched_agree), ("R17p", link.r17_pushpath),
               ("R18", link.r18_pullpath)),
 }
 SCHED_PROPS = {"C01", "C02", "C04", "C13", "C20", "C03"}
@@ -115,7 +117,7 @@ TEXTS = {'C01': 'Static, clause level: (R01) every in-repo time component pulls 
     'C09': "Static: (R20) the end point an adapter registers with pinged() is the one named in its pulls, for all 18 adapter classes; (R21) decision table of Output.get_data/_clear_data over order types with 1-2 consumers (plain or adapter, lagging, never pulled) and of every buffering adapter: exactly the entries older than the last one at/before the slowest consumer's request are dropped, files removed, RAM counter adjusted; (R25/R23) retained spilled entries keep unique files. NOT decided: the premise of non-decreasing requests (follows from C01/C03 for driver-made requests).", 'C10': "Static: (R22) packed/unpacked typestate over every read of a spill container's payload: no packed entry (possibly a file name) reaches a return, arithmetic or foreign call without _unpack; (R23) every eviction removes the file / decrements the RAM counter in the right branch and Composition's finalize path reaches, for every class owning a spill container, code removing all remaining files; (R24) writer and reader agree on masked payloads (type-test guard) and on the unit domain of the label; (R25) file names lie below memory_location, are unique per slot and spill, limit/location reach all outputs and adapters before data flows. NOT decided: bit-equality of the .npy round trip.", 'C11': 'Static: (R27) _get_data of Next/Previous/Linear/StepTime abstractly interpreted over every order type (buffer sizes 1..3/5 x request positions): the result is, as a term, the first entry at/after t, the last at/before t, old + dt*(new-old) with dt=(t-t_old)/(t_new-t_old) (rational normal form), the step interpolant with the documented strictness; out-of-range requests raise FinamTimeError; (R26) notifications pull(time, self), strip, pack, append; (R21) eviction keeps what later requests need. NOT decided: floating point results, broadcasting of gridded payloads.',
     'C12': 'Static: (R29) _get_data of Avg/SumOverTime abstractly interpreted over order types of (previous pull, request, buffer times, step position): the returned term equals, as a rational function of the symbolic values and times, the exact integral of the linear / step interpolant over [previous pull, request] (divided by its length for the average), the interval start moves to the request and eviction uses the old start; (R28) time exponent of result and declared units agree. NOT decided: numerical conservation, range of averages as numbers.',
     'C13': 'Static: (R30) TimeDelayAdapter.get_data = with_delay(time) -> pull(delayed, target) -> _pulled(original); decision tables of the three with_delay implementations (max(t-delay, start); n-th previous request minus extra delay incl. repeated request times, bounded history; start before first push else min(t, newest push)); (R02) chained delays add up and the driver assumes what is requested. NOT decided: values delivered by the source.',
-    'C14': "Static: (R31) every writer of a field a memoised grid property is computed from resets the memo; (R32) points, cells, cell_centers, data_shape, data_axes, data_points agree on order / axis direction / data location, setters validate locations, casts forward all layout fields; (R32b) index-space typing of order_map and of gen_cells' re-ordering. NOT decided: the index arithmetic inside gen_cells' corner formulas, coordinates as numbers.", 'C15': "Static: (R33) layout algebra: to_canonical / from_canonical, abstractly interpreted for all 28 layouts (1-3 D, both axis orders, every direction combination), yield x,y,z-indexed increasing data, the grid's own layout, and the identity when composed; (R34) get_transform_to maps source layout onto target layout for all layout pairs, returns None only for equal layouts (the class's own __eq__), refuses incompatible grids; Input takes the transform source->merged grid; (R19) the transform never sees the time axis. NOT decided: 'compatible exactly when same locations' (np.allclose on coordinates).", 'C16': "Static: (R35) coordinates and flattened data of both regridders use the same grid's order and mask on each side, tree built from source and queried with target coordinates; (R35b) pulled data is paired with the delivered grid's layout; (R41) masks are never truth-tested; (R33c) to_compressed / from_compressed mirror each other. NOT decided: nearest-neighbour and affine exactness (scipy), convex-hull masking.", 'C17': 'Static: (R36) decision table of compatible_units / equivalent_units / _cache_units against a scripted pint: compatible iff the conversion does not raise DimensionalityError, equivalent iff converting 1 gives 1, memo keyed by the ordered pair, answers independent of query history; to_units relabels iff equivalent, converts otherwise, refuses incompatible; prepare/check raise FinamDataError. NOT decided: physical exactness of factors and offsets (pint is trusted).',
+    'C14': "Static: (R31) every writer of a field a memoised grid property is computed from resets the memo; (R32) points, cells, cell_centers, data_shape, data_axes, data_points agree on order / axis direction / data location, setters validate locations, casts forward all layout fields; (R32b) index-space typing of order_map and of gen_cells' re-ordering. NOT decided: the index arithmetic inside gen_cells' corner formulas, coordinates as numbers.", 'C15': "Static: (R33) layout algebra: to_canonical / from_canonical, abstractly interpreted for all 28 layouts (1-3 D, both axis orders, every direction combination), yield x,y,z-indexed increasing data, the grid's own layout, and the identity when composed; (R34) get_transform_to maps source layout onto target layout for all layout pairs, returns None only for equal layouts (the class's own __eq__), refuses incompatible grids; Input takes the transform source->merged grid; (R19) the transform never sees the time axis. NOT decided: 'compatible exactly when same locations' (np.allclose on coordinates).", 'C16': "Static: (R35) both regridders end to end (constructor, link, public get_info with the real metadata exchange, grid set-up, _get_data) over provenance-labelled terms: the tree / interpolator is built over the delivered source grid's points (source mask and order applied) and queried at the output grid's points (output mask, order, CRS target->source), pulled data is flattened in the delivered grid's order and expanded with the output grid's shape / order / announced mask; a user-given input grid in another layout is never paired with the data; differing output grids, missing specs, one-sided CRS are refused; (R35m) decision table of the mask announced by RegridLinear; (R41) masks are never truth-tested; (R33c) to_compressed / from_compressed mirror each other. NOT decided: nearest-neighbour and affine exactness (scipy), convex-hull masking.", 'C17': 'Static: (R36) decision table of compatible_units / equivalent_units / _cache_units against a scripted pint: compatible iff the conversion does not raise DimensionalityError, equivalent iff converting 1 gives 1, memo keyed by the ordered pair, answers independent of query history; to_units relabels iff equivalent, converts otherwise, refuses incompatible; prepare/check raise FinamDataError. NOT decided: physical exactness of factors and offsets (pint is trusted).',
     'C18': 'Static: (R37) masks_compatible over 98 combinations of {None, FLEX, NONE, nomask, masks} x direction equals the documented table; masks travel with their own grid; prepare applies exactly info.mask; (R33c) compress/expand use the same order for data and mask and the negated mask as selector. NOT decided: element-wise round-trip equality as numbers.',
     'C19': 'Static: (R38) _validate_composition abstractly interpreted over 70+ topologies (all chains of source/adapter/sink kinds up to length 2, static combinations, unconnected inputs, fan-outs at/below/above no-branch adapters, missing components with equal and distinct slot names): FinamConnectError exactly for the unworkable ones; metadata reports exactly the created links; (R06) validation dominates the first exchange. NOT decided: arbitrary fan-out trees beyond the enumerated shapes.',
     'C20': 'Static: (R39) static output serves its single publication for any time, refuses a second one, stores time None; static input fetches once; (R40) a pull-based output invokes its provider once with the requested time, WeightedSum pulls all inputs for that time and multiplies each value with its own weight; (R14) providers return fresh objects; (R03/R09) scheduling through pull-based components; (R40c) several consumers behind one pull-based component - on the current tree this is the OPEN KNOWN FINDING F16 (the upstream output sees them as one end point and discards what the slower-requesting one still needs; printed as KNOWN-FINDING, exit 0). NOT decided: the numeric sum.'}
